@@ -11,7 +11,7 @@ from vlib.simnet import workloads as WL
 class TreeGen:
     def __init__(self, rng: Any, prefix: str, max_tasks: int = 30,
                  cancel: bool = False, raises: bool = False, nexts: bool = True,
-                 unawaited: bool = True, wide: bool = False) -> None:
+                 unawaited: bool = True, wide: bool = False, logs: bool = False) -> None:
         self.rng = rng
         self.prefix = prefix
         self.n = 0
@@ -21,6 +21,7 @@ class TreeGen:
         self.nexts = nexts
         self.unawaited = unawaited
         self.wide = wide
+        self.logs = logs
         self.raise_placed = False
         self.features: set[str] = set()
 
@@ -68,6 +69,9 @@ class TreeGen:
                 self.features.add('unawaited')
                 continue
             self._consume(t, ov)
+        if self.logs and rng.random() < 0.35:
+            t['steps'].insert(int(rng.integers(0, len(t['steps']) + 1)), ['log', 'log-from-%s' % t['tag']])
+            self.features.add('log')
         if self.raises and not self.raise_placed and rng.random() < 0.25:
             pos = int(rng.integers(0, len(t['steps']) + 1))
             t['steps'].insert(pos, ['raise', 'boom-%s' % t['tag']])
